@@ -33,7 +33,8 @@ def execute(fileobj, cdb, data_out, data_in, max_sense_data_length=32, return_se
         data_in[0:n] = outcome[1][0:n]
         return len(data_in) - n
     if outcome[0] == "cc":
-        raise CheckConditionError(bytes(outcome[1]))
+        # CHECK CONDITION; a binding that could not fetch any sense data reports it without (sense None)
+        raise CheckConditionError(bytes(outcome[1]) if outcome[1] is not None else None)
     if outcome[0] == "raise":
         raise outcome[1]
     raise UnspecifiedError(repr(outcome))
